@@ -9,7 +9,12 @@ extracted Coq model / oracles together with what predict() returned in its three
     corr    (1803): every returned value against the code-shaped model functions mean1/2/3, var_total, var_al, var_ep
 sqrt is an oracle: standard deviations are compared through their (exact) squares.
 Second stream: the 'd' acquisition variants receive exactly the epistemic standard deviation (1805 ok_lcb for LCB/LCBd,
-metamorphic equality with a stub surrogate returning (mean, std_ep) for EI/PI/MES).
+metamorphic equality with a stub surrogate returning (mean, std_ep) for EI/PI/MES; predict_epistemic_std itself).
+Third stream (forest_session, step-wise): ONE forest object and ONE query buffer through a script of operations - buffer
+refilled in place, returned arrays edited by the caller, refit, warm start (estimators_ extended in place), set_params /
+attribute changes of min_variance and n_jobs, pickle / deepcopy / clone round trips, inputs as list / Fortran / view / float32 -
+every predict step checked (same oracles) against the oracle read afresh from the current estimators_; plus input_mutated,
+aliasing, n_trees, warm_start_keeps_trees, clone_params.  Model side: the session machine run/step (C18_session_* theorems).
 """
 import math
 import signal
@@ -44,7 +49,8 @@ ASSUMPTIONS = [
     "min_variance >= 0 for the exact law (theorem hypothesis; C18_total_variance_needs_floor shows it cannot be dropped in the model); "
     "a few generated cases use a negative floor and are still checked against the model",
 ]
-RULE = ("forest_predict / acq_d: training set, query points, forest options and seed drawn from random.Random(seed/C18/stream); "
+RULE = ("forest_session: a forest case plus 2-7 random operations, each followed by a predict step; "
+        "forest_predict / acq_d: training set, query points, forest options and seed drawn from random.Random(seed/C18/stream); "
         "non-trivial = at least 2 trees and a query point where both the aleatoric and the epistemic part are > 0")
 
 F_MODEL, F_CLAUSES, F_CORR, F_SAME, F_LCB, F_OK = 1801, 1802, 1803, 1804, 1805, 1806
@@ -95,6 +101,15 @@ def make_forest(case, n_jobs):
     return ExtraTreesRegressor(**kw)
 
 
+def fit_arrays(case, X=None, y=None):
+    """training arrays as the caller hands them over: integer-typed for kind int_data"""
+    X = np.array(case["X"] if X is None else X, dtype=float)
+    y = np.array(case["y"] if y is None else y, dtype=float)
+    if case["kind"] == "int_data" and np.array_equal(X, np.round(X)) and np.array_equal(y, np.round(y)):
+        return X.astype(np.int64), y.astype(np.int64)
+    return X, y
+
+
 def observe(forest, Xq):
     """predict three ways -> (means[3][q], stds[3][q]) as numpy arrays, or a string naming a shape problem"""
     m0 = forest.predict(Xq)
@@ -125,6 +140,12 @@ def describe(case, M=None, V=None):
          "mss=%s" % o["min_samples_split"], "minvar=" + case["minvar_kind"]]
     if V is not None and (V < 0).any():
         d.append("neg_impurity")
+    if V is not None:
+        mv = float(o["min_variance"])
+        if (((V < mv).any(axis=0)) & ((V > mv).any(axis=0))).any():
+            d.append("mixed_floor")      # one query point with trees below AND above the floor
+        if ((V == 0).any(axis=0) & (V > 0).any(axis=0)).any():
+            d.append("mixed_pure_impure_leaves")
     return d
 
 
@@ -138,23 +159,23 @@ def first_false(names, bits):
 
 
 def check_predict(case):
-    X = np.array(case["X"], dtype=float)
-    y = np.array(case["y"], dtype=float)
+    X, y = fit_arrays(case)
     Xq = np.array(case["Xq"], dtype=float)
     o = case["opts"]
     sig = dict(cls=o["cls"])
+    nj1, nj4 = o.get("n_jobs_pair", [1, 4])      # sequential (1 / None) and threaded (2, 4, 8, -1; possibly more jobs than trees)
     with warnings.catch_warnings():
         warnings.simplefilter("ignore")
-        f1 = make_forest(case, 1).fit(X, y)
-        f4 = make_forest(case, 4).fit(X, y)
+        f1 = make_forest(case, nj1).fit(X, y)
+        f4 = make_forest(case, nj4).fit(X, y)
         ob1 = observe(f1, Xq)
         ob4 = observe(f4, Xq)
         # the same fitted object asked again with another n_jobs
-        f1.n_jobs = 4
+        f1.n_jobs = nj4
         ob1b = observe(f1, Xq)
-        f1.n_jobs = 1
+        f1.n_jobs = nj1
         M, V = oracle_trees(f1, Xq)
-    res = dict(ok=True, kind="oracle", clause="", nontrivial=False, desc=describe(case, M, V), sig=sig)
+    res = dict(ok=True, kind="oracle", clause="", nontrivial=False, desc=describe(case, M, V) + ["n_jobs=%s/%s" % (nj1, nj4)], sig=sig)
     for ob in (ob1, ob4, ob1b):
         if isinstance(ob, str):
             return dict(res, ok=False, clause=ob, detail="predict returned an unexpected structure")
@@ -224,11 +245,20 @@ class _Stub:
         return (self.mu.copy(), self.std.copy()) if return_std else self.mu.copy()
 
 
+class _PlainStub:
+    """a surrogate that cannot disentangle (like GP): predict has no disentangled_std parameter"""
+
+    def __init__(self, mu, std):
+        self.mu, self.std = mu, std
+
+    def predict(self, X, return_std=False):
+        return (self.mu.copy(), self.std.copy()) if return_std else self.mu.copy()
+
+
 def check_acq(case):
     from deephyper.skopt import acquisition as A
 
-    X = np.array(case["X"], dtype=float)
-    y = np.array(case["y"], dtype=float)
+    X, y = fit_arrays(case)
     Xq = np.array(case["Xq"], dtype=float)
     o = case["opts"]
     kappa = case["kappa"]          # float or "inf"
@@ -273,6 +303,18 @@ def check_acq(case):
         if not all(okl):
             j = [bool(b) for b in okl].index(False)
             return dict(res, ok=False, clause=clause, detail=dict(query=j, acq=float(acq[j]), mu=float(mu[j]), std=float(sd[j]), std_total=float(st[j]), std_al=float(sa[j]), std_ep=float(se[j]), kappa=kappa))
+    # the helper every 'd' variant (and qLCBd in the optimizer) goes through hands out exactly (mean, std_ep) of the forest,
+    # and the total std for a surrogate that cannot disentangle
+    pes = getattr(A, "predict_epistemic_std", None)
+    if pes is not None:
+        with warnings.catch_warnings():
+            warnings.simplefilter("ignore")
+            r = pes(f, Xq)
+            r2 = pes(_PlainStub(m1, st), Xq)
+        if len(r) != 2 or not np.array_equal(r[0], m2) or not np.array_equal(r[1], se):
+            return dict(res, ok=False, clause="predict_epistemic_std", detail=dict(returned=[[float(v) for v in a][:5] for a in r], mean=[float(v) for v in m2][:5], std_ep=[float(v) for v in se][:5]))
+        if len(r2) != 2 or not np.array_equal(r2[0], m1) or not np.array_equal(r2[1], st):
+            return dict(res, ok=False, clause="predict_epistemic_std_fallback", detail="a surrogate without disentangled_std must give its total std")
     # EI / PI / MES: the 'd' variant == the plain variant on a surrogate whose std is std_ep (bitwise: same code after the selection)
     stub = _Stub(m2, se)
     for name, fn, kws in (("EId", A.gaussian_ei, dict(y_opt=case["y_opt"], xi=case["xi"])), ("PId", A.gaussian_pi, dict(y_opt=case["y_opt"], xi=case["xi"])),
@@ -288,6 +330,201 @@ def check_acq(case):
     # the case can tell epistemic from total / aleatoric only when they differ
     res["nontrivial"] = bool(T >= 2 and ((sa > 0) & (se > 0)).any())
     return res
+
+
+
+# ---------------------------------------------------------------- ONE forest object used repeatedly (session stream)
+def verify_obs(res, m, f, Xq, ob, minv, expect_T, tag):
+    """all property clauses + correspondence for one observation of forest f at Xq, against a FRESH read of the oracle;
+    returns a failure dict or None"""
+    if isinstance(ob, str):
+        return dict(res, ok=False, clause=ob, detail=dict(step=tag, what="predict returned an unexpected structure"))
+    M, V = oracle_trees(f, Xq)
+    T, q = M.shape
+    if T != expect_T:
+        return dict(res, ok=False, clause="n_trees", detail=dict(step=tag, estimators=T, expected=expect_T))
+    if not np.isfinite(M).all() or not np.isfinite(V).all():
+        return dict(res, ok=False, clause="oracle_unreadable", detail=dict(step=tag))
+    fin = [float(v) for a in ob[0] + ob[1] for v in a if math.isfinite(v)]
+    k = common_scale(list(M.ravel()) + fin, list(V.ravel()) + [minv])
+    trees = [[[to_int(M[t, j], k), to_int(V[t, j], 2 * k)] for t in range(T)] for j in range(q)]
+    arg = [EPS_M, EPS_V, to_int(minv, 2 * k), [[trees[j], [opt_int(a[j], k) for a in ob[0]], [opt_int(a[j], k) for a in ob[1]]] for j in range(q)]]
+    okb = m.call(F_OK, arg)
+    out = m.call(F_CLAUSES, arg)
+    for j in range(q):
+        bad = first_false(CLAUSES, [bool(b) for b in out[j]])
+        if bad is not None or not okb[j]:
+            return dict(res, ok=False, clause=bad or "ok_C18", detail=dict(step=tag, query=j, means=[float(a[j]) for a in ob[0]], stds=[float(a[j]) for a in ob[1]],
+                                                                           tree_means=[float(v) for v in M[:, j]], tree_impurities=[float(v) for v in V[:, j]], min_variance=minv))
+    out = m.call(F_CORR, arg)
+    for j in range(q):
+        bad = first_false(CORR, [bool(b) for b in out[j]])
+        if bad is not None:
+            return dict(res, ok=False, kind="corr", clause=bad, detail=dict(step=tag, query=j, means=[float(a[j]) for a in ob[0]], stds=[float(a[j]) for a in ob[1]]))
+    return None
+
+
+def _as_input(buf, how):
+    """the same query values handed over in another container / layout / dtype"""
+    if how == "buf":
+        return buf
+    if how == "list":
+        return buf.tolist()
+    if how == "fortran":
+        return np.asfortranarray(buf)
+    if how == "view":  # non-contiguous view of a larger array
+        big = np.zeros((buf.shape[0] * 2, buf.shape[1] + 1))
+        big[::2, 1:] = buf
+        return big[::2, 1:]
+    if how == "f32":  # what the trees see anyway
+        return buf.astype(np.float32)
+    raise ValueError(how)
+
+
+def check_session(case):
+    """Script of operations on ONE forest object and ONE query buffer.  After every predict step the three request forms are
+    checked against the oracle read afresh from the object's current estimators_ at the buffer's current content, so any
+    state that survives a call (memo keyed on identity, stale accumulator, result arrays handed out twice) shows."""
+    import copy
+    import pickle
+
+    import sklearn.base
+
+    o = case["opts"]
+    sig = dict(cls=o["cls"])
+    X, y = fit_arrays(case)
+    buf = np.array(case["Xq"], dtype=float)          # the caller's buffer: same object, refilled in place
+    minv, T, njobs = float(o["min_variance"]), o["n_estimators"], 1
+    res = dict(ok=True, kind="oracle", clause="", nontrivial=False, desc=describe(case) + ["ops=%d" % len(case["ops"])], sig=sig)
+    m = model()
+    with warnings.catch_warnings():
+        warnings.simplefilter("ignore")
+        f = make_forest(case, 1).fit(X, y)
+        last = None
+        npred = 0
+        for i, op in enumerate(case["ops"]):
+            kind = op["op"]
+            tag = "%d:%s" % (i, kind)
+            res["desc"].append("op=" + kind)
+            if kind == "predict":
+                Xin = _as_input(buf, op.get("how", "buf"))
+                before = np.array(buf, copy=True)
+                before_in = np.array(Xin, copy=True) if isinstance(Xin, np.ndarray) else copy.deepcopy(Xin)
+                ob = observe(f, Xin)
+                same_in = np.array_equal(before_in, Xin) if isinstance(Xin, np.ndarray) else before_in == Xin
+                if not np.array_equal(before, buf) or not same_in:
+                    return dict(res, ok=False, clause="input_mutated", detail=dict(step=tag))
+                bad = verify_obs(res, m, f, buf, ob, minv, T, tag)
+                if bad is not None:
+                    return bad
+                arrs = ob[0] + ob[1]
+                for a_i in range(len(arrs)):
+                    if isinstance(Xin, np.ndarray) and np.shares_memory(arrs[a_i], Xin):
+                        return dict(res, ok=False, clause="aliasing", detail=dict(step=tag, what="output shares memory with the input"))
+                    for b_i in range(a_i):
+                        if np.shares_memory(arrs[a_i], arrs[b_i]):
+                            return dict(res, ok=False, clause="aliasing", detail=dict(step=tag, what="two outputs share memory", which=[b_i, a_i]))
+                    if last is not None and any(np.shares_memory(arrs[a_i], b) for b in last):
+                        return dict(res, ok=False, clause="aliasing", detail=dict(step=tag, what="output shares memory with an earlier result"))
+                last = arrs
+                npred += 1
+                sa, se = ob[1][1], ob[1][2]
+                if T >= 2 and ((sa > 0) & (se > 0)).any():
+                    res["nontrivial"] = True
+            elif kind == "scribble":      # the caller edits what it got back (gaussian_mes does: mu *= -1)
+                if last is not None:
+                    for a in last:
+                        if a.flags.writeable:
+                            a *= -1.0
+                            a += 7.0
+            elif kind == "refill":        # new query values written into the SAME buffer
+                buf[...] = np.array(op["Xq"], dtype=float)
+            elif kind == "refit":         # fit() again on the same object, other data
+                X, y = np.array(op["X"], dtype=float), np.array(op["y"], dtype=float)
+                f.set_params(warm_start=False)
+                f.fit(X, y)
+            elif kind == "warm":          # estimators_ is extended in place
+                probe = np.array(buf, copy=True)
+                M0, V0 = oracle_trees(f, probe)
+                lst = f.estimators_
+                f.set_params(warm_start=True, n_estimators=T + op["extra"])
+                f.fit(X, y)
+                T += op["extra"]
+                M1, V1 = oracle_trees(f, probe)
+                if len(f.estimators_) != T or not np.array_equal(M1[:M0.shape[0]], M0) or not np.array_equal(V1[:V0.shape[0]], V0):
+                    return dict(res, ok=False, clause="warm_start_keeps_trees", detail=dict(step=tag, estimators=len(f.estimators_), expected=T))
+                res["desc"].append("warm_same_list=%s" % (lst is f.estimators_))
+            elif kind == "set_minvar":
+                minv = float(op["value"])
+                if op.get("via") == "attr":
+                    f.min_variance = minv
+                else:
+                    f.set_params(min_variance=minv)
+            elif kind == "set_njobs":
+                njobs = op["value"]
+                f.n_jobs = njobs
+            elif kind in ("pickle", "deepcopy"):
+                f = pickle.loads(pickle.dumps(f)) if kind == "pickle" else copy.deepcopy(f)
+            elif kind == "clone_fit":     # get_params / set_params round trip, then the same fit
+                before = dict(min_variance=f.min_variance, splitter=getattr(f, "splitter", None), n_estimators=f.n_estimators, n_jobs=f.n_jobs)
+                f = sklearn.base.clone(f)
+                after = dict(min_variance=f.min_variance, splitter=getattr(f, "splitter", None), n_estimators=f.n_estimators, n_jobs=f.n_jobs)
+                if before != after:
+                    return dict(res, ok=False, clause="clone_params", detail=dict(step=tag, before=before, after=after))
+                f.set_params(warm_start=False)
+                f.fit(X, y)
+            else:
+                raise ValueError(kind)
+    res["desc"].append("predicts=%d" % npred)
+    return res
+
+
+def gen_session(count):
+    def gen(rng, tier):
+        k = count if tier != "search" else count * 2
+        for i in range(k):
+            c = gen_case(rng, small=(tier == "search" or i % 3 == 2))
+            if len(c["X"]) > 60:
+                c["X"], c["y"] = c["X"][:60], c["y"][:60]
+            c["opts"]["n_estimators"] = min(c["opts"]["n_estimators"], 15)
+            d, nq, scale = len(c["X"][0]), len(c["Xq"]), c["scale"]
+            ops = [dict(op="predict", how="buf")]
+            for _ in range(rng.randint(2, 7)):
+                r = rng.random()
+                if r < 0.22:
+                    ops.append(dict(op="refill", Xq=gen_queries(rng, c["X"], nq)))
+                elif r < 0.36:
+                    ops.append(dict(op="scribble"))
+                elif r < 0.48:
+                    ops.append(dict(op="warm", extra=rng.randint(1, 4)))
+                elif r < 0.58:
+                    n2 = rng.choice([2, 3, 5, 12, 30])
+                    X2, y2 = gen_data(rng, n2, d, rng.choice(KINDS), scale)
+                    ops.append(dict(op="refit", X=X2, y=y2))
+                elif r < 0.70:
+                    ops.append(dict(op="set_minvar", value=rng.choice([0.0, 1e-12, 1e-3, 2.5]) * scale * scale, via=rng.choice(["attr", "params"])))
+                elif r < 0.80:
+                    ops.append(dict(op="set_njobs", value=rng.choice([None, 1, 2, 4, -1])))
+                elif r < 0.90:
+                    ops.append(dict(op=rng.choice(["pickle", "deepcopy"])))
+                else:
+                    ops.append(dict(op="clone_fit"))
+                ops.append(dict(op="predict", how=rng.choice(["buf", "buf", "buf", "list", "fortran", "view", "f32"])))
+                if rng.random() < 0.3:   # the same question twice in a row
+                    ops.append(dict(op="predict", how="buf"))
+            c["ops"] = ops
+            yield c
+    return gen
+
+
+def shrink_session(case):
+    ops = case["ops"]
+    for i in range(len(ops)):
+        if len(ops) > 1:
+            yield dict(case, ops=ops[:i] + ops[i + 1:])
+    for c in shrink(case):
+        if len(c["Xq"]) == len(case["Xq"]) and len(c["X"][0]) == len(case["X"][0]):   # refill / refit data keep their shapes
+            yield c
 
 
 # ---------------------------------------------------------------- robustness against infrastructure noise
@@ -328,12 +565,12 @@ def robust(check):
 
 
 # ---------------------------------------------------------------- generators
-KINDS = ["smooth", "noise", "const", "dups", "two_level", "offset", "grid"]
-SCALES = [1e-6, 1e-3, 1.0, 1e3, 1e6]
+KINDS = ["smooth", "noise", "const", "dups", "two_level", "offset", "grid", "int_data", "one_ulp"]
+SCALES = [1e-30, 1e-12, 1e-9, 1e-6, 1e-6, 1e-3, 1e-3, 1.0, 1.0, 1e3, 1e3, 1e6, 1e6, 1e9, 1e30]
 
 
 def gen_data(rng, n, d, kind, scale):
-    if kind == "grid":
+    if kind in ("grid", "int_data"):
         X = [[float(rng.randint(0, 3)) for _ in range(d)] for _ in range(n)]
     elif kind == "dups":
         base = [[rng.uniform(-1, 1) for _ in range(d)] for _ in range(max(1, n // 3))]
@@ -347,6 +584,13 @@ def gen_data(rng, n, d, kind, scale):
         y = [scale * (1.0 if x[0] > 0 else -1.0) for x in X]
     elif kind == "noise":
         y = [scale * rng.gauss(0, 1) for _ in X]
+    elif kind == "int_data":   # integer-typed arrays (see fit_arrays); magnitudes up to 3e9 (squares beyond 2^63)
+        big = rng.choice([1, 1, 1000, 3 * 10 ** 9])
+        y = [float(rng.randint(-5, 5) * big) for _ in X]
+    elif kind == "one_ulp":    # targets that differ by one or two units in the last place
+        base = scale * rng.choice([1.0, 0.1, 1 / 3, -7.3])
+        y = [base, math.nextafter(base, math.inf), math.nextafter(base, -math.inf)]
+        y = [rng.choice(y) for _ in X]
     elif kind == "offset":
         off = rng.choice([1e2, 1e4, -1e6])
         y = [scale * (off + rng.gauss(0, 1)) for _ in X]
@@ -380,13 +624,15 @@ def gen_case(rng, small=False):
     d = rng.randint(1, 6) if not small else rng.randint(1, 2)
     T = rng.choice([1, 1, 2, 3, 5, 8, 10, 15, 25, 50]) if not small else rng.randint(1, 4)
     cls = rng.choice(["RF", "RF", "ET"])
+    if kind == "int_data":
+        scale = 1.0
     X, y = gen_data(rng, n, d, kind, scale)
     mvk = rng.choice(["0", "0", "0", "tiny", "small", "big", "neg"] if rng.random() < 0.25 else ["0", "0", "tiny", "small", "big"])
     mv = {"0": 0.0, "tiny": 1e-12 * scale * scale, "small": 1e-3 * scale * scale, "big": 2.5 * scale * scale, "neg": -1.0 * scale * scale}[mvk]
     opts = dict(cls=cls, n_estimators=T, splitter=rng.choice(["best", "random"]) if cls == "RF" else "random",
                 bootstrap=rng.random() < 0.5, min_samples_split=rng.choice([2, 2, 3, 5, 10, 0.3]), min_samples_leaf=rng.choice([1, 1, 1, 3]),
                 max_features=rng.choice([1.0, 1.0, "sqrt", 1]), max_depth=rng.choice([None, None, None, 1, 3]), min_variance=mv,
-                seed=rng.randrange(2 ** 31))
+                seed=rng.randrange(2 ** 31), n_jobs_pair=[rng.choice([1, 1, None]), rng.choice([2, 4, 4, 8, -1])])
     nq = rng.choice([1, 3, 6, 10]) if not small else rng.randint(1, 3)
     return dict(kind=kind, scale=scale, minvar_kind=mvk, X=X, y=y, Xq=gen_queries(rng, X, nq), opts=opts)
 
@@ -409,7 +655,7 @@ def gen_acq(count):
             # n_jobs = 1: the sequential loop is deterministic, so the acquisition's own predict call returns bit-for-bit what
             # observe() saw (with threads the summation order - hence the last bits - may differ between two calls)
             c["opts"]["n_jobs"] = 1
-            c["kappa"] = rng.choice([1.96, 1.96, 0.001, 10.0, 19.6, "inf"])
+            c["kappa"] = rng.choice([1.96, 1.96, 0.001, 10.0, 19.6, 0.0, "inf"])
             c["xi"] = rng.choice([0.01, 0.0, 0.5])
             c["y_opt"] = float(rng.choice(c["y"])) if rng.random() < 0.8 else 0.0
             c["np_seed"] = rng.randrange(2 ** 31)
@@ -457,6 +703,7 @@ def streams(tier):
     except Exception:
         pass  # the checks import again and report the exception
     return [
-        Stream("forest_predict", gen_predict(8000 if th else 500), robust(check_predict), shrink, timeout=3 * ATTEMPT_S),
+        Stream("forest_predict", gen_predict(6000 if th else 500), robust(check_predict), shrink, timeout=3 * ATTEMPT_S),
         Stream("acq_d", gen_acq(2500 if th else 150), robust(check_acq), shrink, timeout=3 * ATTEMPT_S),
+        Stream("forest_session", gen_session(1500 if th else 120), robust(check_session), shrink_session, timeout=3 * ATTEMPT_S),
     ]
